@@ -240,3 +240,83 @@ func berFuzzScenarios(hr *hx.Rand, n int) []Scenario {
 	}
 	return out
 }
+
+// ---- snmp: the hostile value at every position of a well-formed message ----
+
+func tl(id byte, parts ...[]byte) []byte {
+	c := cat(parts...)
+	return berTLV([]byte{id}, uint64(len(c)), 0, c)
+}
+
+// positions: 0 extra child of the message, 1 instead of the version, 2 instead of the
+// community, 3 first in the PDU (instead of the request id), 4 instead of the error status,
+// 5 last in the PDU (after the varbind list), 6 a varbind of the list, 7 instead of the
+// name in a varbind, 8 the value of a varbind, 9 behind the value in a varbind
+const snmpPositions = 10
+
+func snmpMsg(pdu byte, pos int, x []byte) []byte {
+	pick := func(p int, normal []byte) []byte {
+		if p == pos {
+			return x
+		}
+		return normal
+	}
+	extra := func(p int) []byte {
+		if p == pos {
+			return x
+		}
+		return nil
+	}
+	name := []byte{0x06, 0x05, 0x2b, 0x06, 0x01, 0x02, 0x01}
+	vb := tl(0x30, pick(7, name), pick(8, []byte{0x05, 0x00}), extra(9))
+	vbl := tl(0x30, vb, extra(6))
+	p := tl(pdu, pick(3, []byte{0x02, 0x04, 1, 2, 3, 4}), pick(4, []byte{0x02, 0x01, 0x00}), []byte{0x02, 0x01, 0x00}, vbl, extra(5))
+	return tl(0x30, pick(1, []byte{0x02, 0x01, 0x00}), pick(2, cat([]byte{0x04, 0x06}, bs("public"))), p, extra(0))
+}
+
+// the hostile core: identifier forms x the length shapes that matter for an allocation
+func berHostile() [][]byte {
+	var xs [][]byte
+	for _, id := range [][]byte{{0x04}, {0x02}, {0x30}, {0xa3}, {0x44}, {0x1f, 0x06}, {0x1f, 0x81, 0x06}, {0x3f, 0x06}} {
+		c := []byte{0xaa, 0xbb}
+		if id[0]&0x20 != 0 {
+			c = []byte{0x04, 0x01, 0xcc}
+		}
+		n := uint64(len(c))
+		xs = append(xs, berTLV(id, n, 0, c), berTLV(id, n, 2, c), berTLV(id, n+1, 0, c), berTLV(id, n, -1, c),
+			berTLV(id, 1<<38, 5, nil), berTLV(id, 0x7fffffff, 4, nil), berTLV(id, 1<<38, 8, nil))
+	}
+	return xs
+}
+
+func snmpScenarios(all bool) []Scenario {
+	var out []Scenario
+	add := func(m []byte) {
+		if len(m) <= 129 { // the service reads 2+hdr[1] bytes: short-form envelopes only
+			out = append(out, berScenario("snmp", "udp", m))
+		}
+	}
+	// the well-formed message itself for every PDU tag and both versions
+	for pdu := 0xa0; pdu <= 0xa8; pdu++ {
+		add(snmpMsg(byte(pdu), -1, nil))
+		add(snmpMsg(byte(pdu), 1, []byte{0x02, 0x01, 0x01}))
+	}
+	xs := berHostile()
+	if all {
+		xs = append(xs, berValues()...)
+	}
+	for pos := 0; pos < snmpPositions; pos++ {
+		for _, x := range xs {
+			add(snmpMsg(0xa0, pos, x))
+		}
+	}
+	// every PDU tag: the allocation-relevant values at the positions inside the PDU
+	for pdu := 0xa1; pdu <= 0xa8; pdu++ {
+		for _, pos := range []int{3, 5, 6, 8} {
+			for _, x := range [][]byte{{0x02, 0x85, 0x40, 0, 0, 0, 0}, {0x04, 0x84, 0x7f, 0xff, 0xff, 0xff}, {0x30, 0x85, 0x40, 0, 0, 0, 0}, {0x1f, 0x06, 0x85, 0x40, 0, 0, 0, 0}, {0x04, 0x03, 0xaa}} {
+				add(snmpMsg(byte(pdu), pos, x))
+			}
+		}
+	}
+	return out
+}
